@@ -1,6 +1,6 @@
 (* C14 -- lemmas about Model/Ens.v: the rectangularity invariant over every operation and history, the lens
    laws of the Conformer view, the iteration theorems, dump / io round trip of rectangular ensembles. *)
-From Coq Require Import List Bool Arith ZArith Lia ZifyBool.
+From Coq Require Import List Bool Arith ZArith Lia ZifyBool Sorted FinFun.
 Import ListNotations.
 From Molli Require Import Model.Ens.
 
@@ -300,6 +300,16 @@ Proof.
   intros r r' L E. inversion E; subst. rewrite map_length; auto.
 Qed.
 
+Lemma c_map_all_rect ks f : forall e e', Rect e -> c_map_all ks f e = Some e' -> Rect e'.
+Proof.
+  induction ks as [|k r IH]; intros e e' He H; simpl in H.
+  - inversion H; subst; auto.
+  - destruct (c_map k f e) as [e1|] eqn:E; [|discriminate]. eapply IH; [|exact H]. eapply c_map_rect; eauto.
+Qed.
+
+Lemma slice_map_rect a b c f e e' : Rect e -> slice_map a b c f e = Some e' -> Rect e'.
+Proof. unfold slice_map. intros He H. destruct (slice_ids _ a b c); [|discriminate]. eapply c_map_all_rect; eauto. Qed.
+
 Lemma StoreRect_nth W i e : StoreRect W -> nth_error (enss W) i = Some e -> Rect e.
 Proof. unfold StoreRect. rewrite Forall_forall. intros H E. apply H. eapply nth_error_In; eauto. Qed.
 
@@ -333,6 +343,7 @@ Proof.
   - (* ConfScale *) destruct (scale_ok _ false); [|discriminate]. eapply c_map_rect; eauto.
   - eapply c_map_rect; eauto.
   - eapply c_map_rect; eauto.
+  - (* SliceTranslate *) eapply slice_map_rect; eauto.
 Qed.
 
 Lemma ens_fun_rect W o i f e e' :
@@ -351,6 +362,15 @@ Lemma upd_charges_frame k f e e' : option_map (with_charges e) (upd_row k f (cha
   na e' = na e /\ nc e' = nc e /\ coords e' = coords e /\ weights e' = weights e.
 Proof.
   intros H. destruct (upd_row k f (charges e)) as [cs|] eqn:E; inversion H; subst. unfold nc; simpl. auto.
+Qed.
+
+Lemma c_map_all_frame ks f : forall e e', c_map_all ks f e = Some e' ->
+  na e' = na e /\ nc e' = nc e /\ charges e' = charges e /\ weights e' = weights e.
+Proof.
+  induction ks as [|k r IH]; intros e e' H; simpl in H.
+  - inversion H; subst; auto.
+  - destruct (c_map k f e) as [e1|] eqn:E; [|discriminate]. unfold c_map in E. apply upd_coords_frame in E as (A1 & A2 & A3 & A4).
+    apply IH in H as (B1 & B2 & B3 & B4). repeat split; congruence.
 Qed.
 
 Lemma per_conf_nc {B} (g : B -> row3 -> row3) ps e e' : per_conf g ps e = Some e' -> na e' = na e /\ nc e' = nc e.
@@ -390,6 +410,7 @@ Proof.
   - destruct (scale_ok _ false); [|discriminate]. unfold c_map in Hf. apply upd_coords_frame in Hf. tauto.
   - unfold c_map in Hf. apply upd_coords_frame in Hf. tauto.
   - unfold c_map in Hf. apply upd_coords_frame in Hf. tauto.
+  - unfold slice_map in Hf. destruct (slice_ids _ _ _ _); [|discriminate]. apply c_map_all_frame in Hf. tauto.
 Qed.
 
 Lemma ens_fun_frame W o i f e e' :
@@ -878,6 +899,215 @@ Proof.
     destruct a as [a0|], b as [b0|]; try pose proof (B a0); try pose proof (B b0); lia.
   - pose proof (fun x => adj_bounds (Z.of_nat len) 0 (Z.of_nat len) x Hl (or_introl (conj eq_refl eq_refl))) as B.
     destruct a as [a0|], b as [b0|]; try pose proof (B a0); try pose proof (B b0); lia.
+Qed.
+
+(* ------------------------------------------------------------------ a slice is the list slice of 0 .. len-1 *)
+Lemma slice_ids_none len a b c : slice_ids len a b c = None <-> c = Some 0%Z.
+Proof.
+  unfold slice_ids, slice_indices. destruct c as [s|]; cbv zeta.
+  - destruct (s =? 0)%Z eqn:E.
+    + split; intros _; [f_equal; lia|reflexivity].
+    + split; intros H; [discriminate|]. inversion H; subst. discriminate.
+  - change (1 =? 0)%Z with false. cbv iota. split; discriminate.
+Qed.
+
+(* range(lo, hi, st) holds exactly lo, lo+st, lo+2st, ... strictly before hi (in the direction of st) ... *)
+Lemma py_range_In lo hi st x : st <> 0%Z ->
+  In x (py_range lo hi st) <->
+  exists j : nat, x = (lo + Z.of_nat j * st)%Z /\ ((0 < st /\ x < hi) \/ (st < 0 /\ hi < x))%Z.
+Proof.
+  intros Hne. split.
+  - intros H. pose proof (py_range_bounds lo hi st x Hne H) as B.
+    unfold py_range in H. apply in_map_iff in H as (j & <- & _). exists j. split; [reflexivity|lia].
+  - intros (j & -> & B). unfold py_range. apply in_map_iff. exists j. split; [reflexivity|].
+    apply in_seq. split; [lia|]. simpl. unfold range_len.
+    destruct B as [[Hs Hx]|[Hs Hx]].
+    + destruct (0 <? st)%Z eqn:E; [|lia]. destruct (lo <? hi)%Z eqn:E2; [|nia].
+      assert (Z.of_nat j <= (hi - lo - 1) / st)%Z by (apply Z.div_le_lower_bound; nia). lia.
+    + destruct (0 <? st)%Z eqn:E; [lia|]. destruct (hi <? lo)%Z eqn:E2; [|nia].
+      assert (Z.of_nat j <= (lo - hi - 1) / - st)%Z by (apply Z.div_le_lower_bound; nia). lia.
+Qed.
+
+(* ... each once, in that order *)
+Lemma sorted_map_seq {A} (R : A -> A -> Prop) (g : nat -> A) n : forall s,
+  (forall i j, i < j -> R (g i) (g j)) -> StronglySorted R (map g (seq s n)).
+Proof.
+  induction n as [|n IH]; intros s H; simpl; constructor; auto.
+  apply Forall_forall. intros y Hy. apply in_map_iff in Hy as (j & <- & Hj). apply in_seq in Hj. apply H. lia.
+Qed.
+
+Lemma py_range_sorted lo hi st : st <> 0%Z ->
+  StronglySorted (fun x y => if (0 <? st)%Z then (x < y)%Z else (y < x)%Z) (py_range lo hi st).
+Proof.
+  intros Hne. unfold py_range. apply sorted_map_seq. intros i j Hij. destruct (0 <? st)%Z eqn:E; nia.
+Qed.
+
+Lemma py_range_NoDup lo hi st : st <> 0%Z -> NoDup (py_range lo hi st).
+Proof.
+  intros Hne. unfold py_range. apply Injective_map_NoDup; [|apply seq_NoDup].
+  intros i j H. assert (Z.of_nat i * st = Z.of_nat j * st)%Z as H' by lia. apply Z.mul_reg_r in H'; [lia|exact Hne].
+Qed.
+
+(* the general statement, for EVERY slice (negative / out-of-range / missing start and stop, any non-zero step):
+   with (lo, hi, st) the clipped bounds of slice.indices, ens[a:b:c] lists -- without repetition, in the direction of
+   the step -- exactly the existing conformers lo + j*st that lie before hi *)
+Theorem slice_ids_spec len a b c ids : slice_ids len a b c = Some ids ->
+  exists lo hi st, slice_indices (Z.of_nat len) a b c = Some (lo, hi, st) /\ st <> 0%Z /\ NoDup ids /\
+    StronglySorted (fun x y => if (0 <? st)%Z then (x < y)%Z else (y < x)%Z) ids /\
+    forall x, In x ids <->
+      (0 <= x < Z.of_nat len)%Z /\
+      exists j : nat, x = (lo + Z.of_nat j * st)%Z /\ ((0 < st /\ x < hi) \/ (st < 0 /\ hi < x))%Z.
+Proof.
+  intros H. pose proof (slice_ids_in_range len a b c ids) as R. specialize (R) with (1 := H).
+  unfold slice_ids in H. destruct (slice_indices (Z.of_nat len) a b c) as [[[lo hi] st]|] eqn:E; [|discriminate].
+  inversion H; subst ids; clear H. exists lo, hi, st.
+  assert (Hne : st <> 0%Z).
+  { unfold slice_indices in E. destruct (_ =? 0)%Z eqn:E0; [discriminate|]. inversion E; subst. lia. }
+  split; [reflexivity|]. split; [exact Hne|]. split; [apply py_range_NoDup; exact Hne|].
+  split; [apply py_range_sorted; exact Hne|].
+  intros x. rewrite (py_range_In lo hi st x Hne). split.
+  - intros Hx. split; [|exact Hx]. apply R. apply py_range_In; auto.
+  - tauto.
+Qed.
+
+(* ---- the slice forms by name *)
+Lemma map_of_nat_shift n : forall a s,
+  map (fun j => (Z.of_nat a + Z.of_nat j)%Z) (seq s n) = map Z.of_nat (seq (a + s) n).
+Proof.
+  induction n as [|n IH]; intros a s; simpl; [reflexivity|]. f_equal; [lia|]. rewrite IH, Nat.add_succ_r. reflexivity.
+Qed.
+
+Lemma py_range_1 lo hi : (0 <= lo)%Z ->
+  py_range lo hi 1 = map Z.of_nat (seq (Z.to_nat lo) (Z.to_nat (hi - lo))).
+Proof.
+  intros Hlo. unfold py_range, range_len. change (0 <? 1)%Z with true. cbv iota.
+  replace (Z.to_nat (if (lo <? hi)%Z then ((hi - lo - 1) / 1 + 1)%Z else 0%Z)) with (Z.to_nat (hi - lo)).
+  2:{ destruct (lo <? hi)%Z eqn:E; [rewrite Z.div_1_r|]; lia. }
+  transitivity (map (fun j => (Z.of_nat (Z.to_nat lo) + Z.of_nat j)%Z) (seq 0 (Z.to_nat (hi - lo)))).
+  - apply map_ext. intros j. lia.
+  - rewrite map_of_nat_shift, Nat.add_0_r. reflexivity.
+Qed.
+
+Lemma down_rev n : map (fun j => (Z.of_nat n - 1 - Z.of_nat j)%Z) (seq 0 n) = rev (map Z.of_nat (seq 0 n)).
+Proof.
+  induction n as [|n IH]; [reflexivity|].
+  rewrite (seq_S n 0) at 2. rewrite map_app, rev_app_distr.
+  change (rev (map Z.of_nat [0 + n])) with [Z.of_nat n]. change ([Z.of_nat n] ++ ?x) with (Z.of_nat n :: x).
+  rewrite <- IH. change (seq 0 (S n)) with (0 :: seq 1 n). rewrite <- seq_shift, map_cons, map_map.
+  f_equal; [lia|]. apply map_ext. intros j. lia.
+Qed.
+
+Lemma py_range_down n : py_range (Z.of_nat n - 1) (-1) (-1) = rev (map Z.of_nat (seq 0 n)).
+Proof.
+  unfold py_range, range_len. change (0 <? -1)%Z with false. cbv iota.
+  replace (Z.to_nat (if (-1 <? Z.of_nat n - 1)%Z then ((Z.of_nat n - 1 - -1 - 1) / - -1 + 1)%Z else 0%Z)) with n.
+  2:{ destruct (-1 <? Z.of_nat n - 1)%Z eqn:E; [change (- -1)%Z with 1%Z; rewrite Z.div_1_r|]; lia. }
+  rewrite <- down_rev. apply map_ext. intros j. lia.
+Qed.
+
+Lemma slice_ids_fwd len a b : let L := Z.of_nat len in
+  slice_ids len a b None =
+  Some (py_range (match a with None => 0%Z | Some x => adj L 0 L x end) (match b with None => L | Some x => adj L 0 L x end) 1).
+Proof. reflexivity. Qed.
+
+(* ens[:] : every conformer, in order *)
+Theorem slice_full len : slice_ids len None None None = Some (map Z.of_nat (seq 0 len)).
+Proof. rewrite slice_ids_fwd. cbv zeta. rewrite py_range_1 by lia. do 3 f_equal; lia. Qed.
+
+(* ens[::-1] : every conformer, in reverse order *)
+Theorem slice_reversed len : slice_ids len None None (Some (-1)%Z) = Some (rev (map Z.of_nat (seq 0 len))).
+Proof.
+  unfold slice_ids, slice_indices. change (-1 =? 0)%Z with false. change (-1 <? 0)%Z with true. cbv iota.
+  rewrite py_range_down. reflexivity.
+Qed.
+
+(* ens[:k], k >= 0 : the first k conformers; nothing at all for k = 0; all of them for k beyond the end *)
+Theorem slice_prefix len k : slice_ids len None (Some (Z.of_nat k)) None = Some (map Z.of_nat (seq 0 (Nat.min k len))).
+Proof.
+  rewrite slice_ids_fwd. cbv zeta. unfold adj. destruct (Z.of_nat k <? 0)%Z eqn:E; [lia|].
+  rewrite py_range_1 by lia. do 3 f_equal; lia.
+Qed.
+
+(* ens[k:], k >= 0 : conformers k .. len-1; nothing for k beyond the end *)
+Theorem slice_suffix len k : slice_ids len (Some (Z.of_nat k)) None None = Some (map Z.of_nat (seq (Nat.min k len) (len - k))).
+Proof.
+  rewrite slice_ids_fwd. cbv zeta. unfold adj. destruct (Z.of_nat k <? 0)%Z eqn:E; [lia|].
+  rewrite py_range_1 by lia. do 3 f_equal; lia.
+Qed.
+
+(* ens[-k:], k > 0 : the LAST k conformers (all of them when k exceeds the size), in order, none twice *)
+Theorem slice_neg_start len k : 0 < k ->
+  slice_ids len (Some (- Z.of_nat k)%Z) None None = Some (map Z.of_nat (seq (len - k) (Nat.min k len))).
+Proof.
+  intros Hk. rewrite slice_ids_fwd. cbv zeta. unfold adj. destruct (- Z.of_nat k <? 0)%Z eqn:E; [|lia].
+  rewrite py_range_1 by lia. do 3 f_equal; lia.
+Qed.
+
+(* ens[:-k], k > 0 : all but the last k conformers *)
+Theorem slice_neg_stop len k : 0 < k ->
+  slice_ids len None (Some (- Z.of_nat k)%Z) None = Some (map Z.of_nat (seq 0 (len - k))).
+Proof.
+  intros Hk. rewrite slice_ids_fwd. cbv zeta. unfold adj. destruct (- Z.of_nat k <? 0)%Z eqn:E; [|lia].
+  rewrite py_range_1 by lia. do 3 f_equal; lia.
+Qed.
+
+(* ens[::s], s > 0 : the conformers whose index is a multiple of s *)
+Theorem slice_stride len s ids : (0 < s)%Z -> slice_ids len None None (Some s) = Some ids ->
+  forall x, In x ids <-> (0 <= x < Z.of_nat len)%Z /\ (x mod s = 0)%Z.
+Proof.
+  intros Hs H x. apply slice_ids_spec in H as (lo & hi & st & E & Hne & _ & _ & M).
+  unfold slice_indices in E. destruct (s =? 0)%Z eqn:E0; [lia|]. destruct (s <? 0)%Z eqn:E1; [lia|].
+  inversion E; subst lo hi st; clear E. rewrite M. split.
+  - intros (B & j & -> & _). split; [exact B|]. rewrite Z.add_0_l. apply Z.mod_mul. lia.
+  - intros (B & Hm). split; [exact B|]. apply Z.mod_divide in Hm; [|lia]. destruct Hm as [z Hz].
+    exists (Z.to_nat z). assert (0 <= z)%Z by nia. split; [|left; lia]. rewrite Z2Nat.id by lia. lia.
+Qed.
+
+(* ---- writing through the elements of a slice: exactly the rows the slice names are transformed, once each *)
+Lemma c_map_some k f e j r : py_index (nc e) k = Some j -> nth_error (coords e) j = Some r ->
+  c_map k f e = Some (with_coords e (set_nth j (map f r) (coords e))).
+Proof.
+  intros H1 H2. unfold c_map. unfold nc in H1.
+  rewrite (upd_row_some k (fun r => Some (map f r)) (coords e) j r (map f r) H1 H2 eq_refl). reflexivity.
+Qed.
+
+Lemma c_map_all_spec f ks : forall e, NoDup ks -> (forall k, In k ks -> (0 <= k < Z.of_nat (nc e))%Z) ->
+  exists e', c_map_all ks f e = Some e' /\ na e' = na e /\ nc e' = nc e /\ charges e' = charges e /\ weights e' = weights e /\
+    forall j, (In (Z.of_nat j) ks -> nth_error (coords e') j = option_map (map f) (nth_error (coords e) j)) /\
+              (~ In (Z.of_nat j) ks -> nth_error (coords e') j = nth_error (coords e) j).
+Proof.
+  induction ks as [|k r IH]; intros e Hnd Hb.
+  - exists e. simpl. repeat split; auto. intros [].
+  - inversion Hnd as [|? ? Hk Hr]; subst.
+    assert (Bk : (0 <= k < Z.of_nat (nc e))%Z) by (apply Hb; left; reflexivity).
+    set (j0 := Z.to_nat k).
+    assert (P : py_index (nc e) k = Some j0). { rewrite <- (Z2Nat.id k) by lia. apply py_index_nat. lia. }
+    destruct (nth_error (coords e) j0) as [r0|] eqn:E0.
+    2:{ apply nth_error_None in E0. unfold nc in Bk. lia. }
+    pose proof (c_map_some k f e j0 r0 P E0) as C. set (e1 := with_coords e (set_nth j0 (map f r0) (coords e))) in *.
+    assert (N1 : nc e1 = nc e) by (unfold nc, e1; simpl; apply set_nth_length).
+    destruct (IH e1 Hr) as (e' & R & A1 & A2 & A3 & A4 & A5).
+    { intros k' Hk'. rewrite N1. apply Hb. right. exact Hk'. }
+    exists e'. simpl. rewrite C. split; [exact R|]. split; [rewrite A1; reflexivity|]. split; [congruence|].
+    split; [rewrite A3; reflexivity|]. split; [rewrite A4; reflexivity|].
+    intros j. destruct (A5 j) as [I1 I2]. split.
+    + intros [Hj|Hj].
+      * assert (j = j0) by lia. subst j. rewrite I2 by (rewrite <- Hj; exact Hk).
+        unfold e1; simpl. rewrite nth_error_set_nth_eq by (apply nth_error_Some; congruence). rewrite E0. reflexivity.
+      * assert (j <> j0) by (intros ->; apply Hk; unfold j0 in Hj; rewrite Z2Nat.id in Hj by lia; exact Hj).
+        rewrite I1 by exact Hj. unfold e1; simpl. rewrite nth_error_set_nth_neq by auto. reflexivity.
+    + intros Hn. assert (j <> j0) by (intros ->; apply Hn; left; unfold j0; lia).
+      rewrite I2 by (intros Hj; apply Hn; right; exact Hj). unfold e1; simpl. apply nth_error_set_nth_neq; auto.
+Qed.
+
+Theorem slice_map_spec a b c f e ids : slice_ids (nc e) a b c = Some ids ->
+  exists e', slice_map a b c f e = Some e' /\ na e' = na e /\ nc e' = nc e /\ charges e' = charges e /\ weights e' = weights e /\
+    forall j, (In (Z.of_nat j) ids -> nth_error (coords e') j = option_map (map f) (nth_error (coords e) j)) /\
+              (~ In (Z.of_nat j) ids -> nth_error (coords e') j = nth_error (coords e) j).
+Proof.
+  intros H. unfold slice_map. rewrite H. apply c_map_all_spec.
+  - apply slice_ids_spec in H as (lo & hi & st & _ & _ & Hnd & _). exact Hnd.
+  - intros k Hk. eapply slice_ids_in_range; eauto.
 Qed.
 
 (* ------------------------------------------------------------------ the two recorded findings, as the code does them today *)
